@@ -44,7 +44,7 @@ PROPS = {
                 "0.4-1.2 KiB (quick) / up to 2 KiB (thorough) per vector, sentences with hostile values) x modes {parse, completion revisions "
                 "0/1/7/8/9 with/without application name} plus markdown/html/manpage rendering; "
                 "every execution runs under catch_unwind with a fuel budget and is repeated three "
-                "times (again, after unrelated runs, fresh parser) and compared.  A branch of a choice may be an adjacent group. " + DISTINCT,
+                "times (again, after unrelated runs, fresh parser) and compared.  A branch of a choice may be an adjacent group.  Each case also runs bpaf::batteries (verbose_and_quiet_by_number, verbose_by_slice, toggle_flag) on a random line of -v/-q/--on/--off items and clusters against a clamp model, twice. " + DISTINCT,
         "assumptions": COMMON_ASSUMPTIONS + [
             "Termination is decided on a logical step counter (fuel = 10000 x (items+1) x "
             "(spec nodes+1)), never on wall-clock time.",
